@@ -10,10 +10,6 @@ open KV
     `None` entry makes `Line.remove()` raise: `None.driver_pin`) -/
 def FD (net : Net) : Prop := ∀ j, j < net.nodes.size → (net.node j).isFork = true → ∀ o ∈ (net.node j).outs, o ≠ none
 
-/-- decidable form -/
-def forksDenseB (net : Net) : Bool :=
-  (List.range net.nodes.size).all fun j => !(net.node j).isFork || (net.node j).outs.all (·.isSome)
-
 theorem FD_of_forksDenseB {net : Net} (h : forksDenseB net = true) : FD net := by
   intro j hj hf o ho
   simp only [forksDenseB, List.all_eq_true, List.mem_range] at h
